@@ -1920,6 +1920,10 @@ func (t *Topic) anotherUserSub(sess *Session, asUid, target types.Uid, asChan bo
 			modeGiven = t.accessFor(auth.LevelAuth) &^ types.ModeOwner
 			// Enable new subscription even if default is no joiner.
 			modeGiven |= types.ModeJoin
+			if t.cat == types.TopicCatP2P {
+				// A P2P participant always keeps the approver permission, same as for an explicit mode above.
+				modeGiven = (modeGiven & types.ModeCP2P) | types.ModeApprove
+			}
 		}
 
 		var modeWant types.AccessMode
